@@ -445,7 +445,10 @@ def mainH : Handler := fun inp impl => do
   let host := getStrD inp "host"
   let hostOpt := getStrD inp "hostopt"
   let strip := getStrD inp "strip"
-  let listener : Listener := if getStrD inp "listener" == "https" then .https else .http
+  let listener : Listener := match getStrD inp "listener" with
+    | "https" => .https
+    | "https+tcp+sni" => .httpsTcpSni
+    | _ => .http
   let conn := (impl.getObjVal? "conn").toOption.getD Json.null
   let remote := getStrD conn "remote"
   let st : TLS := { version := getNatD conn "tlsv", cipher := getNatD conn "tlsc" }
@@ -491,7 +494,7 @@ def mainH : Handler := fun inp impl => do
                            ("sts", Json.arr (mSts.map Json.str).toArray)]
   let agree := !isPanic && mStarted == started &&
     (!started || (mOk && reached && proj iHdr == mHdr && iHost == mHost && iSts == mSts))
-  let tlsOn := listener == .https
+  let tlsOn := getStrD inp "listener" != "http"
   let ws := eqFold (sentFirst wire "Upgrade") "websocket"
   -- an unparsable command-line value: fabio must refuse to run rather than run with something else
   let argBad := (getArrD inp "opts").toList.any fun e => getStrD e "src" == "arg" &&
@@ -513,6 +516,7 @@ def mainH : Handler := fun inp impl => do
   let cls := if !started then "refused" else
     (if degenerateCfg sCfg then "config-collision" else upgradeClass wire tlsOn ++
       (if hostOpt == "" then "" else if hostOpt == "dst" then "/hostopt-dst" else "/hostopt-literal")) ++
+    (if getBoolD inp "h2" then "/h2" else "") ++ (if listener == .httpsTcpSni then "/sni-listener" else "") ++
     (if opts.isEmpty then "/defaults" else
       (if srcs.contains "arg" then "/arg" else "") ++ (if srcs.contains "env" || srcs.contains "envbare" then "/env" else "") ++
       (if srcs.contains "file" then "/file" else ""))
